@@ -122,7 +122,6 @@ func (d *MsgPipeline) Start(ctx context.Context, msgMeta *module.MsgMetadata, ma
 		d:                  d,
 		rcptModifiersState: make(map[*rcptBlock]module.ModifierState),
 		deliveries:         make(map[module.DeliveryTarget]*delivery),
-		originalRcpts:      make(map[string]string),
 		msgMeta:            msgMeta,
 		log:                target.DeliveryLogger(d.Log, msgMeta),
 	}
@@ -259,6 +258,12 @@ type delivery struct {
 	module.Delivery
 	// Recipient addresses this delivery object is used for, original values (not modified by RewriteRcpt).
 	recipients []string
+	// Address passed to Delivery.AddRcpt (after all rewrites) -> original
+	// values of the recipients it was added for, used to report statuses
+	// set by the target under the latter. It is kept per target: the
+	// same effective address can be reached from different recipients on
+	// different targets.
+	originalRcpts map[string][]string
 }
 
 type msgpipelineDelivery struct {
@@ -276,12 +281,6 @@ type msgpipelineDelivery struct {
 	deliveries  map[module.DeliveryTarget]*delivery
 	msgMeta     *module.MsgMetadata
 	checkRunner *checkRunner
-
-	// Recipient rewrites done by this pipeline object (effective address ->
-	// address passed to AddRcpt), used to report statuses under the latter.
-	// msgMeta.OriginalRcpts can not be used for that: it is shared with nested
-	// pipelines (reroute), each of which must undo only its own rewrites.
-	originalRcpts map[string]string
 }
 
 func (dd *msgpipelineDelivery) AddRcpt(ctx context.Context, to string, opts smtp.RcptOptions) error {
@@ -354,7 +353,6 @@ func (dd *msgpipelineDelivery) AddRcpt(ctx context.Context, to string, opts smtp
 
 			if originalTo != to {
 				dd.msgMeta.OriginalRcpts[to] = originalTo
-				dd.originalRcpts[to] = originalTo
 			}
 
 			for _, tgt := range rcptBlock.targets {
@@ -371,6 +369,14 @@ func (dd *msgpipelineDelivery) AddRcpt(ctx context.Context, to string, opts smtp
 				if err != nil {
 					return wrapErr(err)
 				}
+
+				// Recorded before the call: a nested pipeline that refuses
+				// the recipient may have passed a part of its expansion to
+				// its targets already.
+				if delivery.originalRcpts == nil {
+					delivery.originalRcpts = make(map[string][]string)
+				}
+				delivery.originalRcpts[to] = append(delivery.originalRcpts[to], originalTo)
 
 				if err := delivery.AddRcpt(ctx, to, opts); err != nil {
 					return wrapErr(err)
@@ -444,16 +450,21 @@ func (dd *msgpipelineDelivery) Body(ctx context.Context, header textproto.Header
 // collect-and-them-report approach since statuses should be reported
 // as soon as possible (that is required by LMTP).
 type statusCollector struct {
-	originalRcpts map[string]string
+	originalRcpts map[string][]string
 	wrapped       module.StatusCollector
 }
 
 func (sc statusCollector) SetStatus(rcptTo string, err error) {
-	original, ok := sc.originalRcpts[rcptTo]
-	if ok {
-		rcptTo = original
+	originals, ok := sc.originalRcpts[rcptTo]
+	if !ok {
+		sc.wrapped.SetStatus(rcptTo, err)
+		return
 	}
-	sc.wrapped.SetStatus(rcptTo, err)
+	// Several recipients can be rewritten to the same address, the status
+	// of the address is the status of each of them.
+	for _, original := range originals {
+		sc.wrapped.SetStatus(original, err)
+	}
 }
 
 func (dd *msgpipelineDelivery) BodyNonAtomic(ctx context.Context, c module.StatusCollector, header textproto.Header, body buffer.Buffer) {
@@ -516,7 +527,7 @@ func (dd *msgpipelineDelivery) BodyNonAtomic(ctx context.Context, c module.Statu
 		partDelivery, ok := delivery.Delivery.(module.PartialDelivery)
 		if ok {
 			partDelivery.BodyNonAtomic(ctx, statusCollector{
-				originalRcpts: dd.originalRcpts,
+				originalRcpts: delivery.originalRcpts,
 				wrapped:       c,
 			}, header, body)
 			continue
